@@ -400,6 +400,19 @@ def item_tables(ctx, slot: str):
 
 
 # --------------------------------------------------------------------------- R1
+
+def _blind_reader(fn_node) -> Optional[ast.AST]:
+    """a store whose field name is computed (`setattr(self, <name>, ..)` with a non-constant name, `self.__dict__[..] = ..`): which
+    fields the reader fills is then not read off its statements"""
+    for n in ast.walk(fn_node):
+        if isinstance(n, ast.Call) and isinstance(n.func, ast.Name) and n.func.id == "setattr" and len(n.args) == 3 and \
+                isinstance(n.args[0], ast.Name) and n.args[0].id == "self" and not isinstance(n.args[1], ast.Constant):
+            return n
+        if isinstance(n, ast.Call) and isinstance(n.func, ast.Attribute) and n.func.attr == "__setattr__" and n.args and not isinstance(n.args[0], ast.Constant):
+            return n
+    return None
+
+
 def rule_r1(ctx) -> List[R.Inst]:
     M = ctx.M
     rid = "C06.R1"
@@ -436,6 +449,10 @@ def rule_r1(ctx) -> List[R.Inst]:
         key = f"meta:{k}"
         if k not in wt:
             insts.append(R.viol(rid, key, file, rt[k][3].lineno, f"'{k}' is read but never written", construct=f"read-only {k}"))
+        elif k not in rt and _blind_reader(rd.node) is not None:
+            insts.append(R.undec(rid, key, file, _blind_reader(rd.node).lineno,
+                                 f"'{k}' has no reading statement of its own, but the reader stores fields under computed names "
+                                 f"('{unparse(_blind_reader(rd.node))[:60]}'): not decided"))
         elif k not in rt:
             insts.append(R.viol(rid, key, file, wt[k][2].lineno, f"'{k}' is written but never read back", construct=f"write-only {k}"))
         elif k in dup:
